@@ -328,7 +328,13 @@ def t7_raw_key_normal_form(ctx) -> None:
             ctx.violation("T7", prods[0], f"the pack is replayed on `{lab}`; it must be replayed on all labels of the key (({kp0}[0],) + {kp0}[1]): a rule made by a factory from "
                           "the label left out is never recomputed")
     else:
-        raise AnalysisError("T7: RecomputingDict.__getitem__ no longer walks itertools.product(<labels>, self.pack)")
+        other = [c for c in walk_local(g) if isinstance(c, ast.Call) and norm(c.func) in ("itertools.product", "product") and len(c.args) == 2]
+        if other:
+            src = norm(D.expanded(g, other[0].args[1]))
+            ctx.violation("T7", other[0], f"the strategies replayed are `{src[:80]}`, not the whole pack (self.pack): a rule made by a strategy that is left out -- a "
+                          "verification strategy with dependency children, a symmetry -- can never be recomputed")
+        else:
+            raise AnalysisError("T7: RecomputingDict.__getitem__ no longer walks itertools.product(<labels>, self.pack)")
     # membership before recomputation
     first = g.body[0]
     raises = [r for r in C.raises_of(g) if r.exc is not None and norm(r.exc).startswith("KeyError")]
@@ -527,3 +533,24 @@ def w4_pack_iteration(ctx) -> None:
                       "it, so rules produced by those strategies can never be recomputed", construct="StrategyPack.__iter__ coverage")
     else:
         ctx.ok("W4", f"StrategyPack.__iter__ covers every strategy list {sorted(attrs)}")
+
+
+def t6b_flat_keys_are_elements(ctx) -> None:
+    """RecomputingDict keeps its keys flattened in a set: a flattened key is one element of that
+    set (add / remove / discard / in).  Handed to a set *operation* (update,
+    difference_update, ...) it is iterated, and its integers are added / removed."""
+    P = ctx.P
+    rd = P.need_class("RecomputingDict")
+    n = 0
+    for m in rd.methods.values():
+        for c in walk_local(m.node):
+            if isinstance(c, ast.Call) and isinstance(c.func, ast.Attribute) and is_self_attr(c.func.value, "rules") and c.args \
+                    and any(isinstance(x, ast.Call) and norm(x.func).endswith("_flatten") for x in ast.walk(D.expanded(m.node, c.args[0]))):
+                n += 1
+                if c.func.attr in ("add", "remove", "discard", "__contains__"):
+                    ctx.ok("T6", f"RecomputingDict.{m.name}: the flattened key is one element (`{c.func.attr}`)")
+                else:
+                    ctx.violation("T6", c, f"RecomputingDict.{m.name} hands a flattened key to `rules.{c.func.attr}`, which iterates it: the integers of the key are "
+                                  "added to / removed from the set of keys, the key itself is untouched")
+    if n < 2:
+        ctx.floor("T6", 99)
